@@ -15,11 +15,26 @@ LEVEL_NOTE = ("gammastd_monotone / spi_index_monotone (under Monotone gammainc(a
 
 
 def pixel(rng, n):
-    kind = rng.choice(["ordinary", "outlier_hi", "outlier_lo", "lowvar", "negatives", "allnd", "allneg", "allzero", "const", "mostlyzero", "inf"])
+    kind = rng.choice(["ordinary", "outlier_hi", "outlier_lo", "lowvar", "negatives", "allnd", "allneg", "allzero", "const", "mostlyzero", "inf", "tail_sweep", "lowvar_sweep"])
     nd = -9999.0
     base = spi.rain_series(rng, n, "float64")
     base = np.where(base == 0, 0.0, base + 0.0)
-    if kind == "outlier_hi":
+    if kind == "tail_sweep":
+        # no zeros; a geometric sweep of tiny and huge observations: the index must stay ordered all the way into saturation
+        base = np.where(base <= 0, 1.0, base)
+        m = float(np.mean(base))
+        tail = list(range(2 * n // 3, n))          # swept cells sit in the last third: outside the window [0, 2n/3) used by a third of the runs
+        ks = sorted(rng.sample(range(5, 320, 5), min(len(tail), 12)))
+        for i, k in zip(rng.sample(tail, len(ks)), ks):
+            base[i] = m * 10.0 ** (-k) if rng.random() < 0.8 else m * 10.0 ** (k / 40.0)
+    elif kind == "lowvar_sweep":
+        c = rng.choice([100.0, 1000.0])
+        base = np.array([c * (1 + rng.gauss(0, 0.01)) for _ in range(n)])
+        fs = [0.5 + 0.01 * j for j in range(0, 60)] + [1.2 + 0.05 * j for j in range(10)]
+        tail = list(range(2 * n // 3, n))
+        for i, f in zip(tail, rng.sample(fs, len(tail))):
+            base[i] = c * f
+    elif kind == "outlier_hi":
         base[rng.randrange(n)] = max(1.0, float(np.max(base))) * rng.choice([1e2, 1e4, 1e6])
     elif kind == "outlier_lo":
         base[rng.randrange(n)] = rng.choice([1e-300, 1e-30, 1e-6])
@@ -85,8 +100,11 @@ def run(ctx: core.Ctx):
             n = rng.choice([5, 8, 12, 36, 72])
             pixels = [pixel(rng, n) for _ in range(6)]
             nd = -9999.0
-            if rng.random() < 0.5:
+            r_ = rng.random()
+            if r_ < 0.33:
                 cs, ce = 0, n
+            elif r_ < 0.66:
+                cs, ce = 0, 2 * n // 3
             else:
                 cs = rng.randrange(0, n - 2)
                 ce = rng.randrange(cs + 2, n + 1)
